@@ -976,6 +976,11 @@ func gnNodeStream(rng *rand.Rand, n int, tier string, out string) (*Summary, err
 							sm.count("failed_set", "changes-leaves")
 						} else if post != pre {
 							sm.count("failed_set", "leaves-empty-nodes")
+						} else if desync {
+							// an earlier operation of the sequence took a key leaf away from an entry (known
+							// finding deletenode/key-leaf-deleted / setnode/key-leaf-overwrite): the path derived
+							// from that entry carries an empty key value
+							sm.count("failed_set", "tree with an entry whose key leaves disagree with its map key")
 						} else if mut == "" && !useShadow && want != "" && (init || s.exists) && label == "scalar-"+s.kind {
 							sig := "setnode/type-correct-value-rejected"
 							switch {
@@ -1071,7 +1076,9 @@ func gnNodeStream(rng *rand.Rand, n int, tier string, out string) (*Summary, err
 							if !gnUnder(k, s.lm) && !onSpine && !(strings.HasSuffix(k, "#presence") || strings.HasSuffix(k, "#entry")) {
 								lost = append(lost, k)
 							}
-							if !gnUnder(k, s.lm) && strings.HasSuffix(k, "#presence") {
+							// an emptied (or already empty) presence container on the way to the deleted node is
+							// pruned, as the property says; one that is not on the way must stay
+							if !gnUnder(k, s.lm) && strings.HasSuffix(k, "#presence") && !gnUnder(s.lm, strings.TrimSuffix(k, "#presence")) {
 								sm.finding(Finding{Signature: "deletenode/prunes-presence-container", What: "DeleteNode of " + s.lm + " also removed the (then empty) presence container " + strings.TrimSuffix(k, "#presence"), Input: in})
 							}
 						}
